@@ -217,6 +217,10 @@ def expected_depth(lang, body):
     return py_code_depth(body) if lang == "py" else doc_depth(body, lang)
 
 
+# every documented extension of the judged languages and the language (override section) it belongs to
+LANGUAGE_OF_EXTENSION = {".py": "python", ".js": "javascript", ".jsx": "javascript", ".ts": "typescript", ".tsx": "typescript",
+                         ".rs": "rust"}
+
 _DEPTH = re.compile(r"nesting depth \((\d+)\)")
 
 
@@ -245,7 +249,7 @@ def c01_skeleton_differential(ctx):
             for lang in ("py", "ts", "rs"):
                 bodies = [gen_block(rng, lang, 0, rng.choice([1, 2, 3, 4, 5])) for _ in range(rng.choice([1, 2, 3]))]
                 text, funcs = render_file(lang, bodies, rng)
-                p = root / f"m{i}{'.js' if lang == 'ts' and i % 5 == 0 else ext[lang]}"
+                p = root / f"m{i}{('.ts', '.tsx', '.js', '.jsx')[i % 4] if lang == 'ts' else ext[lang]}"
                 p.write_text(text)
                 files.append((p, lang, funcs, text))
         # the same skeleton of common constructs in all three languages (cross-language agreement, documented depth)
@@ -258,27 +262,34 @@ def c01_skeleton_differential(ctx):
                 files.append((p, lang, funcs, text))
         max_d = max(expected_depth(lang, body) for _, lang, funcs, _t in files for _, _, body in funcs)
         for limit in range(1, max_d + 3):
+            # per-language override sections (docs: <language>.max_nesting_depth over max_nesting_depth): each language's
+            # files are judged by ITS section; a language without a section by the top-level limit
+            section = {"max_nesting_depth": limit}
+            for lname in LANGUAGE_OF_EXTENSION.values():
+                if rng.random() < 0.5:
+                    section[lname] = {"max_nesting_depth": max(1, limit + rng.choice([-1, 1, 2]))}
             try:
-                orch = Orchestrator(project_root=root, config={"nesting": {"max_nesting_depth": limit}})
+                orch = Orchestrator(project_root=root, config={"nesting": section})
             except Exception as e:  # noqa
-                bad = ("orchestrator", limit, repr(e), "", "")
+                bad = ("orchestrator", section, repr(e), "", "")
                 break
             for p, lang, funcs, text in files:
                 cases += 1
+                eff = section.get(LANGUAGE_OF_EXTENSION[p.suffix], {}).get("max_nesting_depth", limit)
                 try:
                     got = sorted((v.line, int(_DEPTH.search(v.message).group(1)), v.message.split("'")[1])
                                  for v in orch.lint_file(p) if v.rule_id.startswith("nesting"))
                 except Exception as e:  # noqa
-                    bad = (p.name, limit, "exception " + repr(e)[:200], "", text)
+                    bad = (p.name, section, "exception " + repr(e)[:200], "", text)
                     break
                 want = sorted((line, expected_depth(lang, body), fname) for line, fname, body in funcs
-                              if expected_depth(lang, body) > limit)
+                              if expected_depth(lang, body) > eff)
                 if got != want:
-                    bad = (p.name, limit, f"reported (line, depth, function) {got}", f"expected {want}", text)
+                    bad = (p.name, section, f"reported (line, depth, function) {got}", f"expected {want}", text)
                     break
             if bad:
                 break
-    note = "" if bad is None else (f"{bad[0]} with max_nesting_depth={bad[1]}: {bad[2]} {bad[3]}; source:\n{bad[4]}")[:1500]
+    note = "" if bad is None else (f"{bad[0]} with nesting config {bad[1]}: {bad[2]} {bad[3]}; source:\n{bad[4]}")[:1500]
     return [{"name": name, "kind": "bounded", "verdict": "passed" if bad is None else "refuted", "note": note,
              "tool": "cpython (Orchestrator.lint_file on generated Python/TypeScript/Rust files)",
              "budget": f"{len(files) if 'files' in dir() else 0} generated files x limits 1..depth+2", "cases": cases,
